@@ -276,7 +276,86 @@ class VertexSpacing(Unit):
                    z3.And(toz(v1["seq"]) == z3.If(toz(v1["ts_end"]) > z3.Real("ts_max_eps"), -1, z3.Int("i0")), toz(v2["seq"]) == z3.If(toz(v2["ts_end"]) > z3.Real("ts_max_eps"), -1, z3.Int("i0") + 1)))
 
 
-UNITS = [NodeStep(), VertexSpacing(), EdgeAssign(), AugmentFrame(), MinimalDelaySubstitution()]
+
+class _Shaped:
+    """an array leaf of which only the rank matters here"""
+
+    def __init__(self, tag, rank):
+        self.tag, self.rank = tag, rank
+
+    def pyvc_getattr(self, ex, attr):
+        if attr == "shape":
+            return tuple(z3.Int(f"{self.tag}.dim{i}") for i in range(self.rank))
+        raise Unsupported(attr)
+
+    def __repr__(self):
+        return f"<{self.tag} rank {self.rank}>"
+
+
+class PublicWrappers(Unit):
+    """generate_graphs / augment_graphs hand their arguments to _generate_graphs unchanged (default key PRNGKey(0)); augmenting a single (unbatched) graph adds the
+    episode axis to EVERY leaf before and removes it from every leaf of the result afterwards, a batched graph goes through as it is, anything else is refused"""
+    name = "generate_graphs / augment_graphs (public wrappers)"
+    target = ART + "::augment_graphs"
+    props = ("C12",)
+
+    def configs(self):
+        yield "single graph (no episode axis)", dict(rank=1)
+        yield "batched graphs", dict(rank=2)
+        yield "three axes", dict(rank=3)
+
+    def run(self, ctx):
+        ex, cfg = ctx.ex, ctx.cfg
+        calls = []
+        result = Rec("Graph", dict(vertices={"a": Rec("Vertex", dict(seq=_Shaped("out.a.seq", 2), ts_start=_Shaped("out.a.ts_start", 2), ts_end=_Shaped("out.a.ts_end", 2)), module=BASE, frozen=True)},
+                                   edges={("a", "b"): Rec("Edge", dict(seq_out=_Shaped("out.ab.seq_out", 2), seq_in=_Shaped("out.ab.seq_in", 2), ts_recv=_Shaped("out.ab.ts_recv", 2)), module=BASE, frozen=True)}), module=BASE, frozen=True)
+        ex.summaries["_generate_graphs"] = lambda ex_, o, a, k, node: (calls.append((a, k)), result)[1]
+        jnp = ex.lib.ns["jax.numpy"]
+        saved = {k: jnp.entries.get(k) for k in ("expand_dims", "squeeze")}
+        jnp.entries["expand_dims"] = lambda ex_, x, axis=None: ("expanded", x, axis)
+        jnp.entries["squeeze"] = lambda ex_, x, axis=None: ("squeezed", x, axis)
+        r = cfg["rank"]
+        g = Rec("Graph", dict(vertices={"a": Rec("Vertex", dict(seq=_Shaped("a.seq", r), ts_start=_Shaped("a.ts_start", r), ts_end=_Shaped("a.ts_end", r)), module=BASE, frozen=True)},
+                              edges={("a", "b"): Rec("Edge", dict(seq_out=_Shaped("ab.seq_out", r), seq_in=_Shaped("ab.seq_in", r), ts_recv=_Shaped("ab.ts_recv", r)), module=BASE, frozen=True)}), module=BASE, frozen=True)
+        nodes, rng = {"a": z3.Const("node_a", Leaf)}, z3.Const("rng", Leaf)
+        try:
+            try:
+                out = ctx.call(args=[g, nodes], kwargs=dict(rng=rng))
+            except RaiseEx as e:
+                ctx.ensure("C12 only a graph with more than two axes is refused (ValueError), before anything is generated", z3.BoolVal(r == 3 and e.exc == "ValueError" and not calls))
+                return
+            ctx.ensure("a graph with more than two axes is refused", z3.BoolVal(r != 3))
+            ok = len(calls) == 1 and calls[0][1].get("nodes") is nodes and calls[0][1].get("rng") is rng and isinstance(calls[0][1].get("graphs"), Rec)
+            ctx.ensure("C12 the generator is called once with the caller's nodes and key and the graphs to augment (no horizon / episode count of its own)", z3.BoolVal(ok and set(calls[0][1]) == {"nodes", "rng", "graphs"}))
+            if not ok:
+                return
+            gin = calls[0][1]["graphs"]
+            leaves_in = [gin.f["vertices"]["a"].f[k] for k in ("seq", "ts_start", "ts_end")] + [gin.f["edges"][("a", "b")].f[k] for k in ("seq_out", "seq_in", "ts_recv")]
+            leaves_g = [g.f["vertices"]["a"].f[k] for k in ("seq", "ts_start", "ts_end")] + [g.f["edges"][("a", "b")].f[k] for k in ("seq_out", "seq_in", "ts_recv")]
+            leaves_res = [result.f["vertices"]["a"].f[k] for k in ("seq", "ts_start", "ts_end")] + [result.f["edges"][("a", "b")].f[k] for k in ("seq_out", "seq_in", "ts_recv")]
+            leaves_out = [out.f["vertices"]["a"].f[k] for k in ("seq", "ts_start", "ts_end")] + [out.f["edges"][("a", "b")].f[k] for k in ("seq_out", "seq_in", "ts_recv")] if isinstance(out, Rec) else []
+            if r == 1:
+                ctx.ensure("C12 a single graph: every vertex and edge array gets a leading episode axis on the way in ...", z3.BoolVal(all(isinstance(a, tuple) and a[0] == "expanded" and a[1] is b and a[2] == 0 for a, b in zip(leaves_in, leaves_g))))
+                ctx.ensure("C12 ... and loses exactly that axis again on the way out (the caller gets a single graph back)", z3.BoolVal(len(leaves_out) == 6 and all(isinstance(a, tuple) and a[0] == "squeezed" and a[1] is b and a[2] == 0 for a, b in zip(leaves_out, leaves_res))))
+            else:
+                ctx.ensure("C12 batched graphs go in and come out as they are", z3.BoolVal(gin is g and out is result))
+            # generate_graphs
+            calls.clear()
+            gg = ex.module_global(ctx.repo.module(ART), "generate_graphs")
+            ts_max, n = z3.Real("ts_max"), z3.Int("num_episodes")
+            out2 = ex.call(gg, [nodes, ts_max], dict(rng=rng, num_episodes=n))
+            ok2 = len(calls) == 1 and calls[0][1].get("nodes") is nodes and calls[0][1].get("rng") is rng
+            ctx.ensure("C12 generate_graphs hands nodes, horizon, key and episode count to the generator unchanged and returns its result",
+                       z3.And(z3.BoolVal(ok2 and out2 is result and set(calls[0][1]) == {"nodes", "ts_max", "rng", "num_episodes"}), toz(calls[0][1]["ts_max"]) == ts_max, toz(calls[0][1]["num_episodes"]) == n) if ok2 else z3.BoolVal(False))
+        finally:
+            for k, v in saved.items():
+                if v is not None:
+                    jnp.entries[k] = v
+                else:
+                    jnp.entries.pop(k, None)
+
+
+UNITS = [NodeStep(), VertexSpacing(), EdgeAssign(), AugmentFrame(), MinimalDelaySubstitution(), PublicWrappers()]
 EXTRA = dict(assumptions=["jax.lax.scan / vmap fold and batch the verified bodies (assumed); acyclicity follows from time order (vertex after its predecessor, edge to a step starting at/after arrival): written argument",
                           "the scan carry of the edge assignment assumes arrivals in send order; with jittery communication delays a message can be overtaken and is then assigned one step late "
                           "(confirmed on the real code in the design phase; recorded in DESIGN 7 as an observation - the per-call obligations proved here are conditional on the carry)"])
